@@ -54,21 +54,28 @@ func (*RWMutex) InstanceVariables() *InstanceVariables {
 }
 
 func (m *RWMutex) Lock() {
+	vhook("rw.lock.try", m)
 	m.Native.Lock()
+	vhook("rw.lock.ok", m)
 }
 
 func (m *RWMutex) ReadLock() {
+	vhook("rw.rlock.try", m)
 	m.Native.RLock()
+	vhook("rw.rlock.ok", m)
 }
 
 func (m *RWMutex) Unlock() (err Value) {
 	defer func() {
 		if r := recover(); r != nil {
 			err = Ref(NewError(RWMutexUnlockedErrorClass, "a rwmutex that is unlocked for writing cannot be unlocked for writing"))
+			vhook("rw.unlock.err", m)
 		}
 	}()
 
+	vhook("rw.unlock.try", m)
 	m.Native.Unlock()
+	vhook("rw.unlock.ok", m)
 	return Undefined
 }
 
@@ -76,10 +83,13 @@ func (m *RWMutex) ReadUnlock() (err Value) {
 	defer func() {
 		if r := recover(); r != nil {
 			err = Ref(NewError(RWMutexUnlockedErrorClass, "a rwmutex that is unlocked for reading cannot be unlocked for reading"))
+			vhook("rw.runlock.err", m)
 		}
 	}()
 
+	vhook("rw.runlock.try", m)
 	m.Native.RUnlock()
+	vhook("rw.runlock.ok", m)
 	return Undefined
 }
 
